@@ -60,6 +60,12 @@ CHECKS["C06"] = dict(
    text="tests/ + std/ (one accepted program, 16 smallest modules quick / all thorough): at every applicable site one edit per fault kind - operand/condition replaced by a literal of another type, argument of a closed declared parameter type replaced, argument added/removed, explicit type argument added, variable / class / member / imported member / module replaced by a fresh name, required interface method deleted, int literal replaced by 2147483648 / 99999999999, one arm of a distinct-variant match deleted, a private function or class used from a new module. Each mutant must yield >=1 error located in the mutated module; the first mutant per (file, kind) additionally runs compile_sources on the whole program and must get Err without panic.",
    note="Ill-typedness is by construction (expected type fixed by operator or declared closed parameter type). Bound violations not generated.",
    design_ref="DESIGN.md §5 C06")
+CHECKS["C16"] = dict(
+   category="model_checking",
+   technique="stateless exhaustive exploration: full product of import layouts x bodies x exporters x short edit histories on the real ServerState; proposed edits applied to the real text with LSP semantics, result re-parsed and re-checked",
+   text="6924 documents (0-3 existing imports in every order, `;` or not per import, newline/space/blank-line separators, line/block comments before/between/after the imports, leading blank lines, unresolved `Foo` in expression and/or annotation position, one or two exporting modules) x 2 (quick) / 4 (thorough) histories (fresh server, re-saved document, re-saved exporter, edited exporter then re-save): at every column of every `Foo` the auto-import quick fixes and the completion item's additional edits must have in-document, ordered, non-overlapping ranges; applying them must give a text without new syntax errors that imports Foo from the named module, no longer reports Foo unresolved, and is otherwise the same program.",
+   note="Whether a quick fix is offered at all is not asserted. The insert-without-separator defect after an import lacking `;` is a known finding pinned by the repository's own differ test.",
+   design_ref="DESIGN.md §5 C16")
 NOT_YET = "check not built yet in this round (planned: see DESIGN.md §5)"
 
 hooks_commits = subprocess.run(["git","-C","/repo","log","--format=%H %s"],capture_output=True,text=True).stdout.splitlines()
